@@ -13,6 +13,7 @@ type Func struct {
 	Body    []*V
 	Env     *Env
 	Builtin func(ev *Ev, args []*V) []*V
+	active  int
 }
 
 type cell struct{ v *V }
@@ -23,10 +24,12 @@ type cell struct{ v *V }
 // caller first" would find a different binding than lexical lookup can be
 // labelled (note "dynleak"); the verdict never depends on it.
 type Env struct {
-	names []string
-	cells []*cell
-	lex   *Env
-	dyn   *Env
+	names  []string
+	cells  []*cell
+	lex    *Env
+	dyn    *Env
+	call   bool // frame of a function call (parameters)
+	exited bool // the form that made the frame has returned
 }
 
 func (e *Env) local(name string) *cell {
@@ -50,6 +53,21 @@ func (e *Env) lookup(name string) *cell {
 		}
 	}
 	return nil
+}
+
+// how describes a lexical access: through a function boundary (captured
+// variable) and/or into a frame whose form has already returned (the
+// closure escaped its binding form).
+func (e *Env) how(name string) (captured, escaped bool) {
+	for f := e; f != nil; f = f.lex {
+		if c := f.local(name); c != nil {
+			return captured, f.exited
+		}
+		if f.call {
+			captured = true
+		}
+	}
+	return false, false
 }
 
 // callerFirst finds the binding a "call-site frame first, then defining
@@ -141,7 +159,19 @@ func (ev *Ev) Run(forms []*V) (vals []*V, err *Error) {
 	return
 }
 
+func (ev *Ev) tick() {
+	ev.Steps++
+	if ev.MaxSteps < ev.Steps {
+		fail("limit", "step budget exhausted")
+	}
+}
+
 func one(v *V) []*V { return []*V{v} }
+
+// isMV tells whether a result is not an ordinary single value: a count other
+// than one, or a value list made by VALUES and handed on unchanged (VALUES
+// allocates spare capacity, every other producer does not).
+func isMV(vs []*V) bool { return len(vs) != 1 || len(vs) < cap(vs) }
 
 func primary(vs []*V) *V {
 	if len(vs) == 0 {
@@ -161,7 +191,7 @@ func truth(b bool) *V {
 // for the "multiple values reach a single-value position" note.
 func (ev *Ev) eval1(f *V, env *Env, where string) *V {
 	vs := ev.eval(f, env)
-	if len(vs) != 1 {
+	if isMV(vs) {
 		ev.note("mv-into:" + where)
 	}
 	return primary(vs)
@@ -172,7 +202,7 @@ func (ev *Ev) body(forms []*V, env *Env, kind string) []*V {
 	for _, f := range forms {
 		vs = ev.eval(f, env)
 	}
-	if len(vs) != 1 {
+	if isMV(vs) {
 		ev.note("mv-through:" + kind)
 	}
 	return vs
@@ -182,6 +212,12 @@ func (ev *Ev) getVar(name string, env *Env) *V {
 	if c := env.lookup(name); c != nil {
 		if d := env.callerFirst(name, map[*Env]bool{}); d != c {
 			ev.note("dynleak")
+		}
+		if cp, esc := env.how(name); cp {
+			ev.note("closure:captured-read")
+			if esc {
+				ev.note("closure:read-after-binding-form-returned")
+			}
 		}
 		return c.v
 	}
@@ -199,6 +235,12 @@ func (ev *Ev) setVar(name string, v *V, env *Env) {
 	if c := env.lookup(name); c != nil {
 		if d := env.callerFirst(name, map[*Env]bool{}); d != c {
 			ev.note("dynleak")
+		}
+		if cp, esc := env.how(name); cp {
+			ev.note("closure:captured-write")
+			if esc {
+				ev.note("closure:write-after-binding-form-returned")
+			}
 		}
 		c.v = v
 		return
@@ -317,7 +359,7 @@ func (ev *Ev) applyFn(fn *Func, args []*V, site *Env, via string) []*V {
 	if len(args) != len(fn.Params) {
 		fail("program-error", "function %s called with %d arguments, takes %d", fn.Name, len(args), len(fn.Params))
 	}
-	fr := &Env{lex: fn.Env, dyn: site}
+	fr := &Env{lex: fn.Env, dyn: site, call: true}
 	for i, p := range fn.Params {
 		fr.bind(p, args[i])
 	}
@@ -325,7 +367,11 @@ func (ev *Ev) applyFn(fn *Func, args []*V, site *Env, via string) []*V {
 	if 400 < ev.depth {
 		fail("limit", "recursion too deep")
 	}
-	defer func() { ev.depth-- }()
+	fn.active++
+	if 1 < fn.active {
+		ev.note("recursion")
+	}
+	defer func() { ev.depth--; fn.active--; fr.exited = true }()
 	return ev.body(fn.Body, fr, "function-body")
 }
 
@@ -457,6 +503,7 @@ func (ev *Ev) doLoop(args []*V, env *Env, star bool) []*V {
 			break
 		}
 		iter++
+		ev.tick()
 		ev.loopBody(body, fr, kind)
 		if star {
 			for _, dv := range vars {
@@ -523,7 +570,7 @@ func init() {
 				ev.note("if-no-else-taken")
 				return one(Nil)
 			}
-			if len(vs) != 1 {
+			if isMV(vs) {
 				ev.note("mv-through:if")
 			}
 			return vs
@@ -609,7 +656,7 @@ func init() {
 				}
 			}
 			vs := ev.eval(args[len(args)-1], env)
-			if len(vs) != 1 {
+			if isMV(vs) {
 				ev.note("mv-through:and")
 			}
 			return vs
@@ -625,7 +672,7 @@ func init() {
 				}
 			}
 			vs := ev.eval(args[len(args)-1], env)
-			if len(vs) != 1 {
+			if isMV(vs) {
 				ev.note("mv-through:or")
 			}
 			return vs
@@ -644,6 +691,7 @@ func init() {
 			for i, n := range names {
 				fr.bind(n, vals[i])
 			}
+			defer func() { fr.exited = true }()
 			return ev.body(args[1:], fr, "let")
 		},
 		"let*": func(ev *Ev, args []*V, env *Env, _ *V) []*V {
@@ -664,6 +712,11 @@ func init() {
 			if cur == env {
 				cur = &Env{lex: env}
 			}
+			defer func() {
+				for f := cur; f != env && f != nil; f = f.lex {
+					f.exited = true
+				}
+			}()
 			return ev.body(args[1:], cur, "let*")
 		},
 		"setq": func(ev *Ev, args []*V, env *Env, _ *V) []*V {
@@ -698,7 +751,7 @@ func init() {
 			return one(args[0])
 		},
 		"defvar": func(ev *Ev, args []*V, env *Env, _ *V) []*V {
-			need(args, 1, 2, "defvar")
+			need(args, 2, 2, "defvar")
 			name := symName(args[0], "variable name")
 			if _, has := ev.globals[name]; !has {
 				v := Nil
@@ -720,13 +773,14 @@ func init() {
 			for _, e := range properList(lst, "dolist list") {
 				fr := &Env{lex: env}
 				fr.bind(name, e)
+				ev.tick()
 				ev.loopBody(args[1:], fr, "dolist")
 			}
 			if len(spec) == 3 {
 				fr := &Env{lex: env}
 				fr.bind(name, Nil)
 				vs := ev.eval(spec[2], fr)
-				if len(vs) != 1 {
+				if isMV(vs) {
 					ev.note("mv-through:dolist-result")
 				}
 				return vs
@@ -748,17 +802,20 @@ func init() {
 			for i := int64(0); i < cnt.I; i++ {
 				fr := &Env{lex: env}
 				fr.bind(name, Int(i))
+				ev.tick()
 				ev.loopBody(args[1:], fr, "dotimes")
 			}
 			if len(spec) == 3 {
 				fr := &Env{lex: env}
-				n := cnt.I
-				if n < 0 {
-					n = 0
+				// slip documents: "var is bound to the value returned by
+				// count-form" when the result form is evaluated (equal to
+				// the CL rule for every count >= 0)
+				if cnt.I < 0 {
+					ev.note("dotimes-negative-count")
 				}
-				fr.bind(name, Int(n))
+				fr.bind(name, Int(cnt.I))
 				vs := ev.eval(spec[2], fr)
-				if len(vs) != 1 {
+				if isMV(vs) {
 					ev.note("mv-through:dotimes-result")
 				}
 				return vs
@@ -796,6 +853,59 @@ func init() {
 			need(args, 1, 1, "multiple-value-list")
 			return one(List(ev.eval(args[0], env)...))
 		},
+	}
+}
+
+// StaticNotes labels facts about the program text (as opposed to its
+// execution): every 'x shorthand by the kind of x, and shorthands nested in
+// literal data.
+func StaticNotes(forms []*V, notes map[string]bool) {
+	var walk func(v *V, inData bool)
+	walk = func(v *V, inData bool) {
+		switch v.K {
+		case KQuote:
+			if inData {
+				notes["quote-shorthand-in-data"] = true
+			} else {
+				k := TypeName(v.L[0])
+				if v.L[0].K == KQuote {
+					k = "quote"
+				}
+				notes["quote-shorthand:"+k] = true
+			}
+			walk(v.L[0], true)
+			return
+		case KVec:
+			inData = true
+		case KList:
+			if v.Head() == "quote" {
+				inData = true
+			}
+			// ((lambda (p) ... free ...) args): a body form that is a bare
+			// variable other than a parameter
+			if h := v.L[0]; !inData && h.K == KList && h.Head() == "lambda" && 2 < len(h.L) {
+				params := map[string]bool{}
+				if h.L[1].K == KList {
+					for _, p := range h.L[1].L {
+						params[p.S] = true
+					}
+				}
+				for _, b := range h.L[2:] {
+					if b.K == KSym && b != Nil && b != T && !strings.HasPrefix(b.S, ":") && !params[b.S] {
+						notes["lambda-call-bare-free-variable"] = true
+					}
+				}
+			}
+		}
+		for _, e := range v.L {
+			walk(e, inData)
+		}
+		if v.Tail != nil {
+			walk(v.Tail, inData)
+		}
+	}
+	for _, f := range forms {
+		walk(f, false)
 	}
 }
 
@@ -977,12 +1087,10 @@ func init() {
 	cmp(">=", func(a, b int64) bool { return a >= b })
 	defb("zerop", 1, 1, func(ev *Ev, a []*V) []*V { return one(truth(ev.intArg(a[0], "zerop") == 0)) })
 	defb("evenp", 1, 1, func(ev *Ev, a []*V) []*V { return one(truth(ev.intArg(a[0], "evenp")%2 == 0)) })
-	defb("oddp", 1, 1, func(ev *Ev, a []*V) []*V { return one(truth(ev.intArg(a[0], "oddp")%2 != 0)) })
 	defb("not", 1, 1, func(ev *Ev, a []*V) []*V { return one(truth(a[0].IsNil())) })
 	defb("null", 1, 1, func(ev *Ev, a []*V) []*V { return one(truth(a[0].IsNil())) })
 	defb("eql", 2, 2, func(ev *Ev, a []*V) []*V { return one(truth(eql(a[0], a[1]))) })
 	defb("equal", 2, 2, func(ev *Ev, a []*V) []*V { return one(truth(equal(a[0], a[1]))) })
-	defb("identity", 1, 1, func(ev *Ev, a []*V) []*V { return one(a[0]) })
 	defb("list", 0, -1, func(ev *Ev, a []*V) []*V { return one(List(append([]*V{}, a...)...)) })
 	defb("car", 1, 1, func(ev *Ev, a []*V) []*V { return one(car(a[0])) })
 	defb("cdr", 1, 1, func(ev *Ev, a []*V) []*V { return one(cdr(a[0])) })
@@ -1023,7 +1131,7 @@ func init() {
 		if len(a) == 0 {
 			ev.note("values-0")
 		}
-		return append([]*V{}, a...)
+		return append(make([]*V, 0, len(a)+1), a...)
 	})
 }
 
@@ -1054,6 +1162,9 @@ func init() {
 		n := -1
 		for i, l := range a[1:] {
 			lists[i] = properList(l.AsList(), "mapcar list")
+			if len(lists[i]) == 0 {
+				ev.note("mapcar-empty-list")
+			}
 			if n < 0 || len(lists[i]) < n {
 				n = len(lists[i])
 			}
@@ -1065,7 +1176,7 @@ func init() {
 				ca[i] = lists[i][k]
 			}
 			vs := ev.apply(fn, ca, env, "mapcar")
-			if len(vs) != 1 {
+			if isMV(vs) {
 				ev.note("mv-into:mapcar-result")
 			}
 			out[k] = primary(vs)
